@@ -9,6 +9,14 @@ fn main() {
     let nshards = a.u64("nshards", 1);
     let out = a.str("out", "/dev/shm/tv-out");
     let thorough = a.str("tier", "quick") == "thorough";
+    // replay mode: the witness file names the engine-specific case
+    let replay: Option<serde_json::Value> = if a.has("replay") {
+        let doc: serde_json::Value = serde_json::from_str(&std::fs::read_to_string(a.str("replay", "")).expect("replay file")).expect("replay json");
+        Some(doc.get("replay").cloned().unwrap_or(doc))
+    } else {
+        None
+    };
+    let seed = replay.as_ref().and_then(|r| r.get("seed")).and_then(|s| s.as_u64()).unwrap_or(seed);
     let mut rep = Report::new();
     let t0 = std::time::Instant::now();
     match a.engine.as_str() {
@@ -23,6 +31,11 @@ fn main() {
         "c20" => {
             pure_c20::run(seed, shard, nshards, a.u64("cases", if thorough { 60_000 } else { 6_000 }), &mut rep);
         }
+        "e1" => {
+            let bias = replay.as_ref().and_then(|r| r.get("bias")).and_then(|b| b.as_str()).map(|b| b.to_string()).unwrap_or_else(|| a.str("bias", "mixed"));
+            let only = replay.as_ref().and_then(|r| r.get("case")).and_then(|c| c.as_u64()).or(if a.has("case") { Some(a.u64("case", 0)) } else { None });
+            e1::run(seed, shard, nshards, a.u64("cases", if thorough { 600 } else { 60 }), &bias, only, &mut rep);
+        }
         "c07f" => {
             pure_c07f::run(&mut rep);
         }
@@ -31,5 +44,5 @@ fn main() {
             std::process::exit(2);
         }
     }
-    rep.write(&out, &format!("{}-{shard}", a.engine), json!({"wall_s": t0.elapsed().as_secs_f64(), "seed": seed}));
+    rep.write(&out, &format!("{}-{shard}", a.str("tag", &a.engine)), json!({"wall_s": t0.elapsed().as_secs_f64(), "seed": seed}));
 }
